@@ -30,7 +30,7 @@ CurveOf(c) == IF c.kind = "hwmon" THEN 0 ELSE 250
 
 Init == \E c \in Cfgs, th \in Thetas, a0 \in Priors :
           /\ CInit(c, 0, 1, a0)
-          /\ touched = FALSE /\ zeros = 0 /\ H4Init
+          /\ touched = FALSE /\ zeros = 0 /\ spin = 0 /\ H4Init
           /\ theta = th /\ phase = "any" /\ polls = 0 /\ spun = 0
 
 Reading == IF pwm > theta THEN 1000 ELSE 0
